@@ -159,6 +159,31 @@ def law_operators(p):
         return [x >> y, C.Sequence(x, y)], None, "list"
     if which == "rshift3":
         return [x >> y >> x, C.Sequence(x, y, x)], None, "list"
+    # the operators build NEW constructs: an operand that is itself a Struct/Sequence is merged, stays usable, and stays what it was
+    if which == "plus-structs":
+        return [C.Struct("a" / x) + C.Struct("b" / y), C.Struct("a" / x, "b" / y)], None, "dictany"
+    if which == "plus-reused-left":
+        s = C.Struct("a" / x)
+        s + ("b" / y)
+        return [s + ("c" / x), C.Struct("a" / x, "c" / x)], None, "dictany"
+    if which == "plus-left-intact":
+        s = C.Struct("a" / x)
+        s + ("b" / y)
+        return [s, C.Struct("a" / x)], None, "dictany"
+    if which == "plus-right-intact":
+        s = C.Struct("b" / y)
+        ("a" / x) + s
+        return [s, C.Struct("b" / y)], None, "dictany"
+    if which == "rshift-sequences":
+        return [C.Sequence(x) >> C.Sequence(y), C.Sequence(x, y)], None, "list"
+    if which == "rshift-reused-left":
+        s = C.Sequence(x)
+        s >> y
+        return [s >> x, C.Sequence(x, x)], None, "list"
+    if which == "rshift-left-intact":
+        s = C.Sequence(x)
+        s >> y
+        return [s, C.Sequence(x)], None, "list"
     if which == "rename":
         return [C.Struct("num" / x), C.Struct(C.Renamed(x, newname="num"))], None, "dictany"
     if which == "docs":
@@ -231,7 +256,8 @@ def instances():
     for kind in ("hex", "hexdump"):
         for sub in ("Byte", "Int16sl", "Bytes2", "Struct", "VarInt", "Float32b", "CString"):
             out.append(("hex", [kind, sub]))
-    for which in ("getitem", "getitem-this", "plus", "plus3", "rshift", "rshift3", "rename", "docs"):
+    for which in ("getitem", "getitem-this", "plus", "plus3", "rshift", "rshift3", "rename", "docs", "plus-structs", "plus-reused-left", "plus-left-intact",
+                  "plus-right-intact", "rshift-sequences", "rshift-reused-left", "rshift-left-intact"):
         for a, b in (("Byte", "Int16ub"), ("CString", "Byte"), ("Struct", "Flag"), ("VarInt", "Const")):
             for n in (0, 1, 3):
                 if which not in ("getitem",) and n != 1:
